@@ -275,6 +275,24 @@ Definition rollback_adjust (i : nat) (t : Z) : M unit :=
   s <- gets i ;;
   setp i (adjust_times s (cf i) t p).
 
+(* ---- the pure decisions taken by finish / transition / kill (characterised in Life/Policy.v) *)
+Definition too_quickly (now ls startsecs : Z) : bool :=
+  if now >? ls then now - ls <? startsecs * U else false.
+Definition running_due (now ls startsecs : Z) : bool := now - ls >? startsecs * U.
+Definition retry_due (c : pconf) (p : proc) (now : Z) : bool :=
+  (backoff p <=? c_startretries c) && (now >? delay p).
+Definition give_up_due (c : pconf) (p : proc) : bool := backoff p >? c_startretries c.
+Definition kill_due (p : proc) (now : Z) : bool := delay p - now <=? 0.
+Definition should_restart (c : pconf) (es : option Z) : bool :=
+  match c_autorestart c with
+  | ARNever => false
+  | ARAlways => true
+  | ARUnexpected => match es with Some e => negb (mem_z e (c_exitcodes c)) | None => true end
+  end.
+Definition autostart_due (c : pconf) (p : proc) : bool := (laststart p =? 0) && c_autostart c.
+Definition kill_target (c : pconf) (s : pstate) (pid : Z) : Z :=
+  if (if pstate_eqb s STOPPING then c_killasgroup c else c_stopasgroup c) then - pid else pid.
+
 (* ---- Subprocess.give_up (397-402) *)
 Definition give_up (i : nat) : M unit :=
   modp i (fun p => p_system (p_backoff (p_delay p 0) 0) true) ;;;
@@ -290,11 +308,10 @@ Definition kill (i : nat) (sig : Z) : M bool :=
     move i 0 (fun s => pstate_eqb s BACKOFF) (fun p => p) STOPPED true ;;; ret false
   else if pid p =? 0 then ret true
   else
-    let asgroup := if pstate_eqb s STOPPING then c_killasgroup (cf i) else c_stopasgroup (cf i) in
     setp i (p_delay (p_killing p true) (now w + c_stopwaitsecs (cf i) * U)) ;;;
     move i 6 (fun s => match s with RUNNING | STARTING | STOPPING => true | _ => false end)
          (fun p => p) STOPPING true ;;;
-    let target := if asgroup then - pid p else pid p in
+    let target := kill_target (cf i) s (pid p) in
     r <- kill_mark i target sig ;;
     if r =? 2 then
       modp i (fun p => p_delay (p_killing p false) 0) ;;;
@@ -326,7 +343,7 @@ Definition finish (i : nat) (sts : Z) : M unit :=
   modp i (fun p => p_laststop p (now w)) ;;;
   p <- getp i ;;
   s <- gets i ;;
-  let too_quickly := if now w >? laststart p then now w - laststart p <? c_startsecs (cf i) * U else false in
+  let too_quickly := too_quickly (now w) (laststart p) (c_startsecs (cf i)) in
   let exit_expected := mem_z es (c_exitcodes (cf i)) in
   (if pstate_eqb s UNKNOWN then
      setp i (p_exitstatus (p_delay (p_killing p false) 0) (Some es))
@@ -354,37 +371,29 @@ Definition transition (i : nat) : M unit :=
      match state with
      | EXITED =>
        p <- getp i ;;
-       match c_autorestart c with
-       | ARNever => ret tt
-       | ARAlways => spawn i
-       | ARUnexpected =>
-         match exitstatus p with
-         | Some es => if mem_z es (c_exitcodes c) then ret tt else spawn i
-         | None => spawn i
-         end
-       end
+       if should_restart c (exitstatus p) then spawn i else ret tt
      | STOPPED =>
        p <- getp i ;;
-       if (laststart p =? 0) && c_autostart c then spawn i else ret tt
+       if autostart_due c p then spawn i else ret tt
      | BACKOFF =>
        p <- getp i ;;
-       if (backoff p <=? c_startretries c) && (now w >? delay p) then spawn i else ret tt
+       if retry_due c p (now w) then spawn i else ret tt
      | _ => ret tt
      end
    else ret tt) ;;;
   (if pstate_eqb state STARTING then
      p <- getp i ;;
-     if now w - laststart p >? c_startsecs c * U then
+     if running_due (now w) (laststart p) (c_startsecs c) then
        setp i (p_backoff (p_delay p 0) 0) ;;;
        move i 11 (fun s => pstate_eqb s STARTING) (fun p => p) RUNNING true
      else ret tt
    else ret tt) ;;;
   (if pstate_eqb state BACKOFF then
      p <- getp i ;;
-     if backoff p >? c_startretries c then give_up i else ret tt
+     if give_up_due c p then give_up i else ret tt
    else if pstate_eqb state STOPPING then
      p <- getp i ;;
-     if delay p - now w <=? 0 then b <- kill i 9 ;; ret tt else ret tt
+     if kill_due p (now w) then b <- kill i 9 ;; ret tt else ret tt
    else ret tt).
 
 (* ---- Supervisor.reap (supervisord.py:285-300) *)
